@@ -158,7 +158,7 @@ package fastaio
 //@     invariant len(seqBuffer) == gLen && implies(counter > 0, width == gWidth) && implies(hdrs == 0, gLen == 0)
 //@     invariant forall(j, 0, len(seqBuffer), isCode(seqBuffer[j]))
 //@     invariant [gapmode.buffer] forall(j, 0, len(seqBuffer), modeOK(seqBuffer[j], hardGaps))
-//@     invariant [gapmode.separate] forall(t, 0, counter, disjoint(records[t].Seq, seqBuffer))
+//@     invariant [gapmode.separate] forall(t, 0, counter, allocated(records[t].Seq) && disjoint(records[t].Seq, seqBuffer))
 //@     invariant [gapmode.records] forall(t, 0, counter, forall(j, 0, len(records[t].Seq), modeOK(records[t].Seq[j], hardGaps)))
 //@     invariant forall(t, 0, counter, records[t].Idx == t && len(records[t].Seq) == gWidth && records[t].Count_A == 0 && records[t].Count_C == 0 && records[t].Count_G == 0 && records[t].Count_T == 0)
 //@   loop 2:
